@@ -102,6 +102,13 @@ theorem step_AC {s : St} {done seen fetched : List Nat} (h : Inv s done seen fet
       · exact release_AC hA h.live_nodup k
       · exact hA
     · exact hA
+  | drop k how =>
+    simp only [step]
+    split
+    · split
+      · exact release_AC hA h.live_nodup k
+      · exact hA
+    · exact hA
   | redirect k k' =>
     simp only [step]
     split
